@@ -372,3 +372,13 @@ case(
     B + "witness_transfer", name="not-an-implication", params={"xs": List(List(INT)), "ys": List(List(INT))}, returns=INT,
     hints={"z = 0": ["same-witnesses: len(xs) >= 0"]}, expect="unsupported", msg="same-witnesses",
 )
+
+# ---- one local, two types: "name@L<line>" declares the type at that assignment (round 4) ------------------------------------------
+_L2 = next(i for i, l in enumerate(open(M.__file__), 1) if "r = {k: [] for k in xs}" in l)
+case(
+    B + "two_types", params={"xs": List(INT)}, returns=INT, locals={"r": List(INT), f"r@L{_L2}": Dict(INT, List(INT))},
+    ensures={"bound": "result >= len(xs)"},
+    canaries={"exact": "result == len(xs)"},
+    loops={"for x in xs": Loop(index="i", invariants={"n": "len(r) == i"})},
+    gen=lambda rng: {"xs": ints(rng)},
+)
